@@ -161,7 +161,19 @@ func (r *Recorder) Op(op, out string) {
 func (r *Recorder) PerOp() { r.Stats.PerOp = true }
 
 // Quiet records a line without counting it as an operation (state dumps).
-func (r *Recorder) Quiet(op, out string) { fmt.Fprintf(r.w, "%s | %s\n", op, out) }
+func (r *Recorder) Quiet(op, out string) {
+	if strings.HasPrefix(op, "mon ") && out != "ok" {
+		badMonitors++
+	}
+	fmt.Fprintf(r.w, "%s | %s\n", op, out)
+}
+
+var badMonitors int
+
+// Enough reports whether this run has already written so many failing monitor lines (each of them a reported
+// violation) that generating further cases only costs time: on a broken tree every failing case of a concurrent
+// harness runs into a "did not settle" bound of several seconds.
+func (r *Recorder) Enough() bool { return badMonitors >= 6 }
 
 func (r *Recorder) Comment(s string) { fmt.Fprintf(r.w, "# %s\n", s) }
 
